@@ -766,6 +766,16 @@ def genctx_program():
                 ["for", "i", [["bind", "r", ["call", "g", [var("i")]]], ["yield", var("i"), None]], []],
             ],
         ),
+        fn(
+            "gen3",
+            ["p"],
+            [
+                ["bind", "z", V],
+                ["yieldfrom", ["call", "gen2", [V]]],
+                ["bind", "r", ["call", "g", [V]]],
+                ["yield", var("z"), None],
+            ],
+        ),
         # driver: an instrumented function that itself drives generators and calls g
         fn(
             "D",
